@@ -42,13 +42,24 @@ class Alarm(Exception):
     pass
 
 
+ALARMS = {'n': 0}
+
+
 def with_alarm(seconds, thunk):
+    """Run thunk under a wall-clock alarm.  After three alarms in one run every further call fails at once: a walker
+    that does not terminate is reported by the first ones; exploring on would only multiply the waiting time."""
+    if ALARMS['n'] >= 3:
+        raise Alarm()
+
     def onalarm(*a):
         raise Alarm()
     old = signal.signal(signal.SIGALRM, onalarm)
-    signal.alarm(seconds)
+    signal.alarm(seconds if ALARMS['n'] == 0 else 3)
     try:
         return thunk()
+    except Alarm:
+        ALARMS['n'] += 1
+        raise
     finally:
         signal.alarm(0)
         signal.signal(signal.SIGALRM, old)
